@@ -8,5 +8,26 @@ RULE = ('the C09 histories with a deletion-heavy mix over schema variants that f
         'empty after every commit. Non-trivial and distinct as for C09.')
 
 
+def ddl_then_bulk(seed, i, tier):
+    """every 20th case: rows with dependents, then a ddl session that commits in the middle and goes on, then a
+    session that deletes with one DELETE statement - the foreign keys have to be in force again by then (on an
+    in-memory database Pony keeps the connection the ddl session used)"""
+    if i % 20 != 7:
+        return None
+    from ..prng import Rng, derive
+    r = Rng(derive(seed, 'c15ddl', i), 'prog')
+    rnd = lambda: [r.below(1000), r.below(1000), r.below(1000)]
+    s0 = [['new'] + rnd() for _ in range(5)] + [[r.choice(['create_in', 'new', 'add']),] + rnd() for _ in range(6)]
+    s1 = [[r.choice(['new', 'set', 'commit', 'commit', 'flush', 'r_select'])] + rnd() for _ in range(r.randint(2, 5))]
+    s2 = [[r.choice(['r_attr', 'r_pk', 'set'])] + rnd() for _ in range(r.randint(0, 2))] + [['bulk_del'] + rnd()]
+    variant = r.choice(['base', 'base', 'group_cascade', 'car_optional', 'passport_cascade'])
+    return {'engine': 'seq', 'seed': derive(seed, 'c15ddl', i), 'variant': variant,
+            'knobs': {'fetch': r.below(3), 'dbkind': r.choice(['shared', 'shared', 'file'])},
+            'sessions': [{'opts': {}, 'ops': s0, 'end': 'exit'}, {'opts': {'ddl': True}, 'ops': s1, 'end': 'exit'},
+                         {'opts': {}, 'ops': s2, 'end': 'exit'}],
+            'flush_policy': 'never', 'go_on_after_c13': True}
+
+
 def main(tier, seed):
-    return seqcommon.main_for('C15', 'exploration', RULE, ['delete', 'delete', 'rels', 'order', 'partial'], tier, seed)
+    return seqcommon.main_for('C15', 'exploration', RULE, ['delete', 'delete', 'rels', 'order', 'partial'], tier, seed,
+                              extra_gens=[ddl_then_bulk])
